@@ -307,6 +307,9 @@ func checkC02(w *World, st core.Status, r *RunResult) []Violation {
 	}
 	for _, o := range w.Obs {
 		p := o.Plan
+		if transportLimit(o, r) {
+			continue
+		}
 		tag := cfgTag(w, o)
 		add := func(class, msg string) {
 			vs = append(vs, Violation{Class: "C02/" + class + "/" + tag, Msg: p.ID + ": " + msg})
@@ -396,6 +399,9 @@ func checkC11(w *World, st core.Status, r *RunResult) []Violation {
 	}
 	for _, o := range w.Obs {
 		p := o.Plan
+		if transportLimit(o, r) {
+			continue
+		}
 		tag := cfgTag(w, o)
 		add := func(class, msg string) {
 			vs = append(vs, Violation{Class: "C11/" + class + "/" + tag, Msg: p.ID + ": " + msg})
